@@ -349,7 +349,7 @@ func (act *activation) execBlock(b *ssa.BasicBlock, a *alt, edgeOut map[edge][]*
 					for i, r := range res {
 						shown[i] = act.e.snapshot(r, x.cells, 0)
 					}
-					act.events = append(act.events, &Event{Key: "return", Kind: "return", Instr: ins, Fn: act.fn, Args: shown, Atoms: x.atoms, Result: act.flags(x)})
+					act.events = append(act.events, &Event{Key: "return", Kind: "return", Instr: ins, Fn: act.fn, Args: shown, Atoms: x.atoms, May: x.may, Result: act.flags(x)})
 				}
 			}
 			return
